@@ -426,7 +426,8 @@ theorem isHTmp_eq_isTmp (n : String) : isHTmp n = isTmp n := by
 /-! ## the semantic theorems transferred to the hybrid model -/
 
 open C05 in
-/-- **T1 transferred**: `prog_correct_fixed_closed` for `compileProgH Cfg.fixed` on hybrid-free programs -/
+/-- **T1 transferred**: `prog_correct_fixed_closed` for `compileProgH Cfg.fixed` on hybrid-free programs (final states:
+    `StRel`, which does not relate the immediates, see `C05.prog_correct_fixed`) -/
 theorem progH_correct_fixed_closed {ms : MacroSem} (hms : MsOK ms) {c : Ctx} (hc : c.ok = true)
     {prog : List CStmt} {eff : ILEffect} (hfree : HybFreeSs prog = true)
     (hcomp : compileProgH Cfg.fixed prog = .ok eff)
@@ -441,7 +442,8 @@ theorem progH_correct_fixed_closed {ms : MacroSem} (hms : MsOK ms) {c : Ctx} (hc
 open C05 in
 /-- **T1 + T2 transferred**: `prog_correct_asCode_closed` for `compileProgH Cfg.asCode`.  Two decidable hypotheses
     are added: the program is hybrid-free, and it satisfies the side condition `HSameProg Cfg.asCode` (which the
-    carve-out does not imply: `heqvCex_hyps`, `heqvCex_ne`). -/
+    carve-out does not imply: `heqvCex_hyps`, `heqvCex_ne`).  Final states: `StRel`, which does not relate the
+    immediates, see `C05.prog_correct_fixed`. -/
 theorem progH_correct_asCode_closed {ms : MacroSem} (hms : MsOK ms) {c : Ctx} (hc : c.ok = true)
     {prog : List CStmt} {eff : ILEffect}
     (hcarve : CarveSs (CarveE (assignedOfList prog)) { assigned := assignedOfList prog, cfg := Cfg.fixed } prog = true)
@@ -456,7 +458,8 @@ theorem progH_correct_asCode_closed {ms : MacroSem} (hms : MsOK ms) {c : Ctx} (h
     (by rw [← compileProgH_eq_compileProg_asCode prog hfree hsame]; exact hcomp) himms hwf hwfe hloc hsrcs hex
 
 open C05 in
-/-- the same with part (b) of the side condition only (part (a) is implied by the carve-out) -/
+/-- the same with part (b) of the side condition only (part (a) is implied by the carve-out); final states: `StRel`,
+    which does not relate the immediates -/
 theorem progH_correct_asCode_closed' {ms : MacroSem} (hms : MsOK ms) {c : Ctx} (hc : c.ok = true)
     {prog : List CStmt} {eff : ILEffect}
     (hcarve : CarveSs (CarveE (assignedOfList prog)) { assigned := assignedOfList prog, cfg := Cfg.fixed } prog = true)
